@@ -4,7 +4,7 @@
 # the unchanged tree and fails with the patch, the repository's suite is unchanged with the patch. Then copies patch,
 # demo and README to /verif/seeded/<name>/ and writes a first meta.json (the checks' verdicts are added by seed_run.sh).
 ID=$1; NAME=$2; shift 2; FLAGS="$*"
-WT=/tmp/seedwork/wt_$ID; S=$WT/_seed
+WT=${SEED_WT:-/tmp/seedwork/wt_$ID}; S=$WT/_seed
 [ -f $S/patch.diff ] || { echo "no patch"; exit 2; }
 cd $WT || exit 2
 git checkout -q -- src
